@@ -16,7 +16,10 @@ RULE = ("Hypothesis draws logical files (1-6 segments, quick; up to 12 or 100-26
         "types, contiguous/interleaved, byte order per segment, padding, 13 property types with rewrites, "
         "listed no-data objects), encodes them with the independent encoder and compares TdmsFile.read with "
         "the model. A case is non-trivial when >=1 channel carries data and the file has >=2 segments or a "
-        "multi-chunk, interleaved or big-endian segment; distinct = distinct SHA-1 of the canonical case JSON.")
+        "multi-chunk, interleaved or big-endian segment; distinct = distinct SHA-1 of the canonical case JSON."
+        ' A further job reads C02 histories in a randomly chosen compressed physical encoding (inherited raw indexes, '
+        'metadata-less segments after header-only segments); the shared generator also emits segments that declare '
+        'channels but hold no chunk.')
 ASSUMPTIONS = [
     "the independent encoder (vf/encode.py) implements the NI TDMS layout correctly",
     "well-formed files only: valid UTF-8, no duplicate path in one metadata block, one data type per channel",
